@@ -68,8 +68,10 @@ def sizePreamble (len : Nat) (ext : Bool) (lbP ubP : Option Int) : Res (Bits × 
     | none => .ok ([], l, -1, -1)
     | some u =>
       if (len : Int) ≤ u then
-        -- with an upper bound of 64K or more the length itself is encoded (lb := 0; the repair of F24)
-        .ok (if ext then [false] else [], if u > 65535 then 0 else l, u, if u > 65535 then -1 else u - l + 1)
+        -- with an upper bound of 64K or more the length itself is encoded (lb := 0; the repair of F24);
+        -- a string shorter than the lower bound is refused there explicitly (the repair of F34)
+        if u > 65535 ∧ (len : Int) < l then err
+        else .ok (if ext then [false] else [], if u > 65535 then 0 else l, u, if u > 65535 then -1 else u - l + 1)
       else if !ext then err
       else .ok ([true], 0, u, -1)
 
